@@ -1,4 +1,5 @@
 import OH.Proofs.HintDatedTotal
+import OH.Proofs.EvalSpecDatedBase
 /-
 Layer B — dated ranges (`MonthdayRange.date`), part S: soundness of the hint.
 
@@ -166,7 +167,13 @@ theorem singleIntervalV_none_iff (s : DateSpec) (so : DateOffset) (e : DateSpec)
       | some y0 =>
         simp only [dateYear, Option.map_some, Option.some.injEq] at hy
         subst hy
-        simp [dateOnYear]
+        -- the year a date carries is one chrono can build, so its (clamped) day exists
+        simp only [DateSpec.wf, optYearOk, yearOk, Bool.and_eq_true, decide_eq_true_eq] at hds
+        obtain ⟨⟨⟨⟨hy0, hm1⟩, hm2⟩, hd1⟩, hd2⟩ := hds
+        simp only [dateOnYear, if_true]
+        rw [OH.Proofs.EvalSpec.validYmd_eq (y0 : Int) m dd after (by unfold minYear; omega)
+          (by unfold maxYear; omega) hm1 hm2 hd1 hd2]
+        simp
   constructor
   · intro h
     cases hsy : dateYear s with
